@@ -49,20 +49,20 @@ type lfCfg struct {
 }
 
 type lfRig struct {
-	c        *sim.Ctl
-	st       *sim.Stream
-	tmp      string
-	busyPort int
-	seq      int
-	inst     *casket.Instance
-	running  *lfCfg
-	logw     *lockedBuf
-	pending  *lfCfg
-	sigch    chan<- os.Signal
-	sigMu    sync.Mutex
+	c             *sim.Ctl
+	st            *sim.Stream
+	tmp           string
+	busyPort      int
+	seq           int
+	inst          *casket.Instance
+	running       *lfCfg
+	logw          *lockedBuf
+	pending       *lfCfg
+	sigch         chan<- os.Signal
+	sigMu         sync.Mutex
 	failRestartCb bool
-	aborted  bool
-	lastFails []string
+	aborted       bool
+	lastFails     []string
 }
 
 var lf *lfRig
